@@ -17,6 +17,11 @@ for d in sorted(glob.glob(os.path.join(HERE, "seeded", "C*-*m[0-9]"))):
     for m in re.finditer(r"^(C\d+) rc=(\d+) violations=(\d+) ?(.*)$", txt, re.M):
         if m.group(2) == "1":
             caught[m.group(1)] = m.group(4).split("|")[0][:140]
+    thorough = {}
+    if os.path.exists(os.path.join(d, "eval_thorough.txt")):
+        for m in re.finditer(r"^(C\d+) rc=(\d+) violations=(\d+) ?(.*)$", open(os.path.join(d, "eval_thorough.txt")).read(), re.M):
+            if m.group(2) == "1" and m.group(1) not in caught:
+                thorough[m.group(1)] = m.group(4).split("|")[0][:140]
     notes = open(os.path.join(d, "notes.txt")).read().strip() if os.path.exists(os.path.join(d, "notes.txt")) else ""
     target = mid.split("-")[0]
     old = {}
@@ -35,18 +40,19 @@ for d in sorted(glob.glob(os.path.join(HERE, "seeded", "C*-*m[0-9]"))):
         "what_was_run": "tools/eval_mutant.sh seeded/%s/patch.diff seeded/%s/demo.py  (scratch worktree of /repo HEAD; demo on clean and patched tree; repository suite on patched tree; quick tier of all 20 checks with SYNAPGRAD_ROOT=<patched worktree>)" % (mid, mid),
         "caught_by_quick_tier": caught,
         "caught_by_target_check": target in caught,
+        "caught_by_thorough_tier_only": thorough,
         "first_pass_before_strengthening": old.get("first_pass_before_strengthening"),
     }
     json.dump(meta, open(mp, "w"), indent=1)
     rows.append(meta)
 with open(os.path.join(HERE, "seeded", "MATRIX.md"), "w") as f:
-    f.write("# Seeded changes x checks (quick tier)\n\n`T` = caught by the check of the property the change was written against, `x` = caught by another check.\n\n")
+    f.write("# Seeded changes x checks (quick tier)\n\n`T` = caught by the check of the property the change was written against, `x` = caught by another check, `t*` = caught by that check's thorough tier only.\n\n")
     ids = sorted(props)
     f.write("| change | demo ok | suite | " + " | ".join(i[1:] for i in ids) + " |\n|---|---|---|" + "---|" * len(ids) + "\n")
     for r in rows:
         ok = r["confirmed"]["demo_passes_on_clean_tree"] and r["confirmed"]["demo_fails_with_patch"]
         f.write(f"| {r['id']} | {'yes' if ok else 'NO'} | {r['confirmed']['repository_suite_with_patch'][:22]} | " +
-                " | ".join(("T" if i == r["breaks_property"] else "x") if i in r["caught_by_quick_tier"] else "" for i in ids) + " |\n")
+                " | ".join((("T" if i == r["breaks_property"] else "x") if i in r["caught_by_quick_tier"] else ("t*" if i in r.get("caught_by_thorough_tier_only", {}) else "")) for i in ids) + " |\n")
     n = len(rows)
     t = sum(1 for r in rows if r["caught_by_target_check"])
     a = sum(1 for r in rows if r["caught_by_quick_tier"])
